@@ -101,6 +101,61 @@ CLAIMS['C11'] = dict(
         '1/C by counting).',
    design='3/C11', note=TB + '; uniformity of numpy choice over subsets and the named numpy distributions trusted')
 
+CLAIMS['C01'] = dict(
+   technique='Lean 4 proof (Lebesgue volume of the acceptance event, algebraic ratio law, detailed balance and stationarity on arbitrary finite types; Mathlib single modules) + logged and scripted correspondence + exact-kernel search',
+   text='15 theorems over EpsieModel/Chain.lean: C01_logspace_test / C01_model_test_is_code_test (the model\'s log-space test is the code\'s u <= exp(logar)), '
+        'C01_accept_probability (volume of {u in [0,1) | accepted} = ar; 0 forced, 1 sure, exp l draw, min 1 (exp logar) for non-zero prior), '
+        'C01_ar_formula(_exp), C01_zero_prior_rejected, C01_reject_keeps_state, C01_joint_hastings(_rat), C01_joint_jump_is_blockwise, '
+        'C01_joint_flag_any_is_wrong, C01_model_acceptance_is_kernel, C01_detailed_balance, C01_kernel_stochastic, C01_stationary (any Fintype, any '
+        'kernel q >= 0, prior holes, any beta). Tied by the logged plumbing correspondence plus scripted steps placing uniforms 1e-6 below/above '
+        'exp(logar); searched with an acceptance oracle and exact transition matrices assembled from real steps on small lattices. That q is '
+        'the jump law is C02.',
+   design='3/C01', note=TB + '; Generator.uniform uniform on [0,1) and independent, numpy.exp monotone: trusted')
+CLAIMS['C03'] = dict(
+   technique='Lean 4 proof (refinement of the carry loop to sequential adjacent exchanges by induction; path probabilities; invariance on finite types) + scripted correspondence over all decision paths + exact sweep-kernel search',
+   text='11 theorems over EpsieModel/Swap.lean: C03_sweep_refines_sequential, C03_sweep_eq_sequential_spec, C03_every_outcome_is_a_path, C03_pair_ratio '
+        '(exp(pairLogAR) = (L_j/L_k)^(beta_k-beta_j) with the slots\' betas), C03_exchange_detailed_balance, C03_path_probability, '
+        'C03_pair_event_is_model_decision, C03_path_event_follows_path, C03_sweep_kernel_is_path_sum, C03_sweep_kernel_stochastic, '
+        'C03_sweep_invariant (pi K_sweep = pi on any finite type, any ladder length, hottest beta 0 allowed). The sweep kernel is defined by the '
+        'total-probability recursion; that it is the push-forward of iid uniforms through the loop is proved in four pieces (pair volume, path box '
+        'volume, path-sum expansion, event => path), not as one push-forward statement. All 2^(n-1) decision paths are scripted on the real code.',
+   design='3/C03', note=TB + '; independent uniform draws trusted; ladder betas = level betas is C17, whole-state permutation is C09')
+CLAIMS['C16'] = dict(
+   technique='Lean 4 proof over an explicit alias (heap) model + table obligations by decide on facts measured on the live classes each run + partition correspondence + direct search',
+   text='C16_snapshot_immutable(_spec), C16_separation, C16_no_coupling(_spec,_fine), C16_disciplined_of_table/_variants, C16_pinned_counterexample over '
+        'EpsieModel/Alias.lean (fields hold heap locations; update/state/set_state/reset alias or copy per measured FieldSpec bits) for any number '
+        'of samplers and any interleaving; EpsieProps/C16Table.lean re-proves CopyDiscipline / SnapshotIsValue and model soundness on tables '
+        'regenerated from the source. Partial in that the tables are measured (is / numpy.shares_memory / bit-exact digests), not derived from '
+        'CPython semantics. The sharing partition of real proposals under random interleavings is compared with the model\'s; snapshots are '
+        're-digested after further running and co-loaded samplers are run in all interleavings.',
+   design='3/C16', note=TB + '; CPython object identity measured, not modelled')
+CLAIMS['C19'] = dict(
+   technique='Lean 4 proof over the alias model and the proposal clock + table obligations by decide + correspondence + direct search',
+   text='C19_reset_restores (+_spec, _with_loads, _from_invariant): after any interleaving of updates and any number of resets every adaptive '
+        'attribute is back at its construction-time content and start_step = max(nsteps,1); C19_reset_always_succeeds; C19_window_restarts / '
+        '_full / _same_as_fresh / _step0_as_fresh / _length; C19_non_adaptive_untouched(_chain), C19_non_adapted_never_written, C19_reset_complete; '
+        'C19_reset_after_swap_exact / C19_no_reset_without_option over PTChain.applySwap; C19_pinned_counterexample; table obligations in '
+        'EpsieProps/C19Table.lean. Real proposals/chains: steps and 0-4 resets interleaved, attributes vs construction values bit for bit, '
+        'following trajectory vs a fresh proposal, PT samplers with reset_after_swap and a record of which levels were reset.',
+   design='3/C19', note=TB + '; tables measured on the live classes')
+
+CLAIMS['C04'] = dict(
+   technique='Lean 4 proof over an object-graph model of sampler construction with an explicit environment adversary + table obligations by decide (tables and the code variant measured on the live code each run) + correspondence + subprocess search',
+   text='C04_chain_owns_its_draw_sites, C04_chains_distinct, C04_env_independent (no observable depends on set iteration order, entropy or global RNG when a '
+        'seed is given) for every code Variant with the hypotheses the proofs force; C04_pinned_counterexample_* witnesses for the variants with the '
+        'defective flags; decide obligations tie the measured draw-site partition, the ast scan of unordered/entropy/global-RNG sites and the measured '
+        'variant to the model. Partial: CPython hash randomisation, pickling and BLAS determinism are exercised by the subprocess search (digests under '
+        'several PYTHONHASHSEED / global seeds / decoy objects), not proved; numpy spawn-key independence trusted.',
+   design='3/C04', note=TB + '; numpy SeedSequence.spawn independence trusted')
+CLAIMS['C07'] = dict(
+   technique='Lean 4 proof over a pool model (serial / copying / permuted / chunked maps over a framed system) + table obligations by decide on the measured cross-chain object graph + correspondence + real pools',
+   text='C07_pool_irrelevant(_runs), C07_named_pools_valid, C07_chain_local, C07_built_sampler_shares_only_the_annealer, C07_built_sampler_pool_irrelevant, '
+        'pinned counterexamples, and decide obligations that the measured set of mutable objects reachable from two chains is what the model predicts '
+        '(empty on the repaired tree). Partial: the theorem reduces independence to the absence of cross-chain mutable state, which is measured on the '
+        'real objects each run; OS scheduling and pickling fidelity are exercised with multiprocessing pools (1..16 workers), deep-copying and '
+        'permuted maps and start-position perturbations, not proved.',
+   design='3/C07', note=TB + '; pool timeouts are exit 2')
+
 NOT_YET = {}
 
 def main():
